@@ -879,6 +879,13 @@ class FortranWriter(LanguageWriter):
             if isinstance(symbol.datatype.precision, DataSymbol):
                 read_write_info.add_read(
                     Signature(symbol.datatype.precision.name))
+            # The bounds of an array constant may also be defined in terms of
+            # other constants.
+            if isinstance(symbol.datatype, ArrayType):
+                for dim in symbol.datatype.shape:
+                    if isinstance(dim, ArrayType.ArrayBounds):
+                        self._call_tree_utils.get_input_parameters(
+                            read_write_info, [dim.lower, dim.upper])
             # Remove any 'inputs' that are not local since these do not affect
             # the ordering of local declarations.
             for sig in read_write_info.signatures_read:
